@@ -165,6 +165,14 @@ def handle (line : String) : String :=
           | some n => "ok " ++ hexOfBytes (Spec.varint n ++ Spec.encodeAll vs)
           | none => "bad-op"
       | none => "bad-op"
+    | "collectit", (.atom _kind :: .atom lo :: .atom hi :: vs) =>
+      match lo.toNat?, valsOfSexp vs with
+      | some lo, some vs =>
+        let hi : Option Nat := if hi == "none" then none else hi.toNat?
+        match collectHeader lo hi with
+        | .error e => "err " ++ e.name
+        | .ok hdr => "ok " ++ hexOfBytes (hdr.flatMap Chunk.bytes ++ encList vs)
+      | _, _ => "bad-op"
     | "collect", chunks =>
       match chunks.mapM (fun c => match c with | .atom h => bytesOfHex h | _ => none) with
       | some cs => "ok " ++ hexOfBytes (Spec.encode (.str cs.flatten))
